@@ -525,3 +525,33 @@ def prom_any(ex, args, name):
 @intr('invoke:global.Inc', 'invoke:global.Add', 'invoke:global.Observe', 'invoke:global.Set')
 def _unused(ex, args, name):
     return None
+
+
+# ---- hash/crc32 (uninterpreted: only determinism and range matter)
+class CRC(Opaque):
+    def __init__(self):
+        Opaque.__init__(self, 'crc32')
+        self.parts = []
+
+    def go_invoke(self, ex, method, args):
+        if method == 'Write':
+            b = args[0]
+            self.parts.append(b.ident if isinstance(b, OpaqueBytes) else b)
+            return (ex.length(b), None)
+        if method == 'Sum32':
+            f = z3.Function('crc32_%d' % len(self.parts), *([z3.IntSort()] * (len(self.parts) + 1)))
+            v = f(*[zint(p) for p in self.parts])
+            ex.assume(z3.And(v >= 0, v < 2**32))
+            return v
+        raise Unsupported('crc32.' + method)
+
+
+@intr('hash/crc32.NewIEEE')
+def crc32_new(ex, args, name):
+    return Iface('crc32', CRC())
+
+
+@intr('math.Pow')
+def math_pow(ex, args, name):
+    from . import fpmodel
+    return fpmodel.go_pow(ex, args[0], args[1])
